@@ -94,12 +94,23 @@ def build_lib(variant, guard=True):
     out = os.path.join(BUILD, key)
     lib = os.path.join(out, "libcctz.a")
     if os.path.exists(lib):
+        os.utime(out)
         return out
-    # drop stale builds of the same variant (disk hygiene)
+    # drop stale builds of the same variant (disk hygiene) - but never one that another running check
+    # (a different tier, seed or scratch tree) may be using or still building: only directories unused
+    # for two hours, and temporary ones only when their process is gone
     if os.path.isdir(BUILD):
         for d in os.listdir(BUILD):
-            if d.startswith(variant + "-") and d != key and os.path.isdir(os.path.join(BUILD, d)):
-                shutil.rmtree(os.path.join(BUILD, d), ignore_errors=True)
+            dp = os.path.join(BUILD, d)
+            if not (d.startswith(variant + "-") and d != key and os.path.isdir(dp)):
+                continue
+            m = re.search(r"\.tmp(\d+)$", d)
+            try:
+                idle = time.time() - os.path.getmtime(dp)
+            except OSError:
+                continue
+            if (m and not os.path.exists("/proc/" + m.group(1))) or (not m and idle > 7200):
+                shutil.rmtree(dp, ignore_errors=True)
     tmp = out + ".tmp%d" % os.getpid()
     os.makedirs(tmp, exist_ok=True)
     base = ["clang++", "-std=c++14", "-Wno-everything", "-I" + os.path.join(REPO, "include"),
@@ -143,7 +154,8 @@ def build_driver(name, variant, extra_src=(), extra_flags=(), guard=True):
     if os.path.exists(exe):
         return exe
     for f in os.listdir(libdir):
-        if f.startswith(name + "-"):
+        m = re.search(r"\.tmp(\d+)$", f)
+        if f.startswith(name + "-") and not (m and os.path.exists("/proc/" + m.group(1))):
             try:
                 os.remove(os.path.join(libdir, f))
             except OSError:
